@@ -107,6 +107,12 @@ class Engine:
             self.inputs[name] = z3.Bool(name)
         return SymBool(self.inputs[name])
 
+    def bitvec(self, name, width=16):
+        from .values import SymBV
+        if name not in self.inputs:
+            self.inputs[name] = z3.BitVec(name, width)
+        return SymBV(self.inputs[name], width)
+
     def integer(self, name):
         if name not in self.inputs:
             self.inputs[name] = z3.Int(name)
